@@ -38,14 +38,17 @@ def gen_table(rng, flavour=None):
     set_default = rng.choice([(None, None), (("set", [V(1)]), None), (None, ("set", []))])
     a1_prep = rng.choice([None, None, ("id",), ("addint", 1)])
     c50_prep_item = rng.choice([None, None, None, ("addint", 10), ("id",)])
+    c51_prep_item = rng.choice([None, None, None, ("addint", 10), ("id",)])
+    c52_prep_item = rng.choice([None, None, None, ("addint", 10), ("id",)])
     k2_attrs = [
         {"aid": 1, "ty": INT, "default": rng.choice([None, V(3)]), "decl": decl(), "prepare": a1_prep},
         {"aid": 4, "ty": ("spec", 1), "default": a4d, "factory": a4f, "dnc": rng.random() < 0.15},
         {"aid": 50, "ty": ("list", INT), "default": lst_default[0], "factory": lst_default[1], "decl": decl(),
          "prepare_item": c50_prep_item, "dnc": rng.random() < 0.1},
         {"aid": 51, "ty": ("dict", STR, INT), "default": dct_default[0], "factory": dct_default[1], "decl": decl(),
-         "dnc": rng.random() < 0.1},
-        {"aid": 52, "ty": ("set", INT), "default": set_default[0], "factory": set_default[1], "decl": decl()},
+         "prepare_item": c51_prep_item, "dnc": rng.random() < 0.1},
+        {"aid": 52, "ty": ("set", INT), "default": set_default[0], "factory": set_default[1], "decl": decl(),
+         "prepare_item": c52_prep_item},
         {"aid": 53, "ty": ("list", ("spec", 1)), "default": None, "factory": rng.choice([None, ("list", [])])},
         {"aid": 54, "ty": ("dict", STR, ("spec", 1)), "default": None, "factory": rng.choice([None, ("dict", [])])},
         {"aid": 3, "ty": ("opt", INT), "default": rng.choice([None, NONE, V(4)]), "decl": "Attr",
